@@ -65,13 +65,19 @@ ChannelsIn(slots, pcm) == SumSeq([i \in 1..Len(slots) |-> slots[i].m \div pcm])
 RECURSIVE Pack(_, _, _)
 Pack(sel, i, n) == IF i > n THEN <<>> ELSE (IF i \in DOMAIN sel THEN <<sel[i]>> ELSE <<>>) \o Pack(sel, i + 1, n)
 
+(* compute_spectrum_slot_vs_bandwidth: channels needed for the bandwidth, slots (12.5 GHz) per channel.          *)
+(* bw and rate in Mbit/s, spacing in MHz; both quotients are rounded UP.                                       *)
+CeilDiv(a, b) == (a + b - 1) \div b
+NbWl(t) == CeilDiv(t.bw, t.rate)
+Pcm(t)  == CeilDiv(t.spacing, 12500)
+
 Outcome(oc, t) ==
-    LET need == t.nbWl * t.pcm
+    LET need == NbWl(t) * Pcm(t)
         allM == \A i \in 1..Len(t.slots) : t.slots[i].m # NONE /\ t.slots[i].m # 0
     IN IF t.pre THEN [st |-> "preblocked", nm |-> <<>>]
-       ELSE IF allM /\ t.nbWl > ChannelsIn(t.slots, t.pcm) THEN [st |-> "NOT_ENOUGH_RESERVED_SPECTRUM", nm |-> <<>>]
+       ELSE IF allM /\ NbWl(t) > ChannelsIn(t.slots, Pcm(t)) THEN [st |-> "NOT_ENOUGH_RESERVED_SPECTRUM", nm |-> <<>>]
        ELSE LET fin == Walk(t.slots, Order(t.slots), 1,
-                            [busy |-> BusyOn(oc, t.path), rem |-> need, sel |-> <<>>, stop |-> FALSE, pcm |-> t.pcm])
+                            [busy |-> BusyOn(oc, t.path), rem |-> need, sel |-> <<>>, stop |-> FALSE, pcm |-> Pcm(t)])
             IN IF fin.rem > 0 THEN [st |-> "NO_SPECTRUM", nm |-> <<>>]
                ELSE [st |-> "served", nm |-> Pack(fin.sel, 1, Len(t.slots))]
 
